@@ -1443,3 +1443,143 @@ def t_optype( ctx ):
             res.ok( src, stores[-1], '%s -> %s, values %r' % ( cell, got, env[VAL] ))
     res.cells = len( _OPTYPE_CELLS )
     return res
+
+
+# ---------------------------------------------------------------- K-REPLIES: what a response is taken for, as a decision table
+
+class _DD( dict ):
+    """a nested mapping addressed by dotted paths and attributes, as far as enip_replies uses one ( get / in / attribute / [ ] )"""
+    def _walk( self, key ):
+        cur = self
+        for part in str( key ).replace( '[', '.[' ).split( '.' ):
+            if part.startswith( '[' ):
+                cur = cur[int( part[1:-1] )]
+            elif isinstance( cur, dict ) and dict.__contains__( cur, part ):
+                cur = dict.__getitem__( cur, part )
+            else:
+                raise KeyError( key )
+        return cur
+    def get( self, key, default=None ):
+        try:
+            return self._walk( key )
+        except ( KeyError, IndexError, TypeError ):
+            return default
+    def __contains__( self, key ):
+        try:
+            self._walk( key ); return True
+        except ( KeyError, IndexError, TypeError ):
+            return False
+    def __getitem__( self, key ):
+        return self._walk( key )
+
+
+def _dd( x ):
+    if isinstance( x, dict ):
+        return _DD( { k: _dd( v ) for k, v in x.items() } )
+    if isinstance( x, list ):
+        return [ _dd( v ) for v in x ]
+    return x
+
+
+@rule( 'K-REPLIES', props=( 'C13', 'C12' ), floor=10 )
+def k_replies( ctx ):
+    """client.enip_replies - what a received response is taken for - as a decision table over 11 responses: no response ( time-out ) -> None,
+    end of stream -> the empty response itself, a response without encapsulation status refused, a non-zero encapsulation status / Unconnected
+    Send status / Multiple Service Packet status raised as ENIPStatusError / SENDStatusError / MSVCStatusError ( never turned into results ),
+    a Multiple Service Packet reply -> its member replies themselves, all of them and in order, any other request -> a list of that one
+    reply; the same for a connected response ( connection_data ).  The statements of the function are evaluated on each cell."""
+    from .fold import run_block
+    res = Result( 'K-REPLIES' )
+    src = ctx.src( CLIENT )
+    fn = src.get( 'enip_replies' )
+    R = fn.args.args[0].arg
+    m1, m2, single = { 'service': 0xCC, 'status': 0 }, { 'service': 0xCD, 'status': 5 }, { 'service': 0xD2, 'status': 6 }
+    def resp( status=0, kind='unconnected_send', send_status=None, request=None ):
+        d = { 'enip': { 'status': status } }
+        if request is not None or send_status is not None:
+            body = {}
+            if send_status is not None:
+                body['status'] = send_status
+            if request is not None:
+                body['request'] = request
+            d['enip']['CIP'] = { 'send_data': { 'CPF': { 'item': [ {}, { kind: body } ] } } }
+        return d
+    bundle = { 'service': 0x8A, 'status': 0, 'multiple': { 'request': [ m1, m2, single ] } }
+    cells = [
+        ( 'no response ( time-out )', None, ( 'return', None )),
+        ( 'end of stream ( {} )', {}, ( 'return', {} )),
+        ( 'a response without an encapsulation status', { 'enip': {} }, ( 'raise', None )),
+        ( 'encapsulation status 8', resp( status=8 ), ( 'raise', 'ENIPStatusError' )),
+        ( 'Unconnected Send status 5', resp( send_status=5, request=single ), ( 'raise', 'SENDStatusError' )),
+        ( 'Multiple Service Packet reply, status 8', resp( request=dict( bundle, status=8 )), ( 'raise', 'MSVCStatusError' )),
+        ( 'Multiple Service Packet reply of 3 members', resp( request=bundle ), ( 'members', 3 )),
+        ( 'connected Multiple Service Packet reply of 3 members', resp( kind='connection_data', request=bundle ), ( 'members', 3 )),
+        ( 'a single reply', resp( request=single ), ( 'single', None )),
+        ( 'a connected single reply', resp( kind='connection_data', request=single ), ( 'single', None )),
+        ( 'a response without a data item', { 'enip': { 'status': 0, 'CIP': {} } }, ( 'raise', None )),
+    ]
+    for what, given, ( kind, want ) in cells:
+        r = _dd( given ) if given is not None else None
+        vars_ = { R: r }
+        def env( d, vars_=vars_ ):
+            if d == 'device.Message_Router.MULTIPLE_RPY':
+                return 0x8A
+            head = d.split( '.' )[0]
+            if head not in vars_:
+                return NoFold
+            v = vars_[head]
+            for part in d.split( '.' )[1:]:
+                if isinstance( v, dict ) and dict.__contains__( v, part ):
+                    v = dict.__getitem__( v, part )
+                else:
+                    raise NoFold( 'no %s' % d )
+            return v
+        # run_block stores into a dict: keep the locals in vars_ and resolve through env
+        class E( dict ):
+            def __contains__( self, k ):
+                try:
+                    return env( k ) is not NoFold
+                except NoFold:
+                    return False
+            def __getitem__( self, k ):
+                v = env( k )
+                if v is NoFold: raise KeyError( k )
+                return v
+            def __setitem__( self, k, v ): vars_[k] = v
+            def get( self, k, default=None ):
+                try: return self[k]
+                except ( KeyError, NoFold ): return default
+        try:
+            out = run_block( fn.body, E(), ignore_calls=( 'log', ))
+        except NoFold as exc:
+            # an attribute / item that does not exist is how the function itself fails on such a response
+            if kind == 'raise' and want is None:
+                res.ok( src, fn, '%s -> refused' % what )
+                continue
+            raise AnalysisError( 'enip_replies is not a decision fragment on "%s": %s' % ( what, exc ))
+        if kind == 'return':
+            good = out.kind == 'return' and ( out.value is None if want is None else ( out.value is r ))
+            got = repr( out )
+        elif kind == 'raise':
+            good = out.kind == 'raise' and ( want is None or ( out.value or '' ).split( '.' )[-1] == want )
+            got = repr( out )
+        elif kind == 'members':
+            mem = r['enip']['CIP']['send_data']['CPF']['item'][1]
+            mem = ( mem.get( 'unconnected_send' ) or mem.get( 'connection_data' ))['request']['multiple']['request']
+            good = out.kind == 'return' and isinstance( out.value, list ) and len( out.value ) == 3 and all( a is b for a, b in zip( out.value, mem ))
+            got = '%s of %s replies' % ( out.kind, len( out.value ) if isinstance( out.value, list ) else '?' )
+        else:
+            one = r['enip']['CIP']['send_data']['CPF']['item'][1]
+            one = ( one.get( 'unconnected_send' ) or one.get( 'connection_data' ))['request']
+            good = out.kind == 'return' and isinstance( out.value, list ) and len( out.value ) == 1 and out.value[0] is one
+            got = repr( out )[:60]
+        if good:
+            res.ok( src, fn, '%s -> %s' % ( what, { 'return': 'returned as it is', 'raise': want or 'refused', 'members': 'its member replies, in order', 'single': 'a list of that reply' }[kind] ))
+        else:
+            res.bad( src, out.node or fn, 'enip_replies: %s -> %s' % ( what, got ),
+                     'specified: %s' % { 'return': 'None for a time-out, the empty response itself for end of stream ( the two ways a stream ends without an error )',
+                                          'raise': 'an exception%s: a failed exchange must end the result stream with an error, never yield results' % ( ' ( %s )' % want if want else '' ),
+                                          'members': 'the member replies of the packet themselves, all of them and in order ( one result per operation )',
+                                          'single': 'a list holding exactly that reply' }[kind], func='enip_replies' )
+    res.cells = len( cells )
+    return res
